@@ -724,6 +724,13 @@ def run_fuzz_import(case, rec):
         rec.sample({"fam": fam, "curve": getattr(k, "curve", None), "private": k.has_private(), "bytes": len(data)})
 
 
+
+def fuzz_mutator(check_name, atheris_mutate):
+    """Structure-aware (DER tree) mutation in addition to libFuzzer's byte-level one; the first two bytes are the target selector and flags."""
+    from ..dermut import make_mutator
+    return make_mutator(2, atheris_mutate)
+
+
 CHECKS = [
     Check("generate", run=run_generate, strategy=strat_generate, examples=(128, 1200), shards=(16, 16),
           rule="generate() with entropy tapes: invariants, exact size, FIPS 186-4 margins, determinism"),
